@@ -54,6 +54,8 @@ def main():
     if len(sys.argv) > 3:
         before = result(sys.argv[3])
         out["checks_before_strengthening"] = {c: {"rc": v["rc"], "detected": v["rc"] == 1} for c, v in before["checks"].items()}
+    if os.environ.get("SEED_NOTE"):
+        out["strengthening"] = os.environ["SEED_NOTE"]
     prev = os.path.join(dst, "meta.json")
     if os.path.exists(prev):
         old = json.load(open(prev))
